@@ -32,7 +32,7 @@ func VerifC20LitToRune() {
 		verifAssume(!(r == utf8.RuneError && size == 1))
 		verifAssume(r != '\n')
 	}
-	got := LitToRune(lit)
+	got := verifRune(lit)
 	verifAssert(got == want, "LitToRune returns Go's value of the literal")
 	if L == 12 && body[0] == '\\' && body[1] == 'U' {
 		verifCover("\\U escape")
